@@ -48,6 +48,19 @@ class GeoJsonModule:
     def FeatureCollection(*a, **kw):
         return GeoObj('FeatureCollection', a, kw)
 
+    @staticmethod
+    @model
+    def load(f, **kw):
+        # GEOJSON-LOAD: geojson.load / loads build geojson objects, whose constructors round every coordinate to the library precision
+        # (6 decimals by default): NOT the document as written
+        from .stdlib import OpaqueValue, choice
+        core.ctx().event('geojson.load', f, kw)
+        if choice('geojson_load_ok'):
+            return OpaqueValue('geojson-object', source=f, rounded=True)
+        raise PyRaise(ExcObj(ValueError, ('invalid geojson',)))
+
+    loads = load
+
 
 class ShpWriter(NullCM):
     _pyvc_model_class = True
